@@ -257,6 +257,28 @@ theorem step_wf (sp : Spec) (w : World) (ev : Event) :
                     · exact Or.inl rfl
 
 
+/-- looking up a row that `setTask` has just written -/
+theorem find_setTask (ts : List TaskRow) (r r1 : TaskRow) (hn : r1.name = r.name) (ho : r1.occ = r.occ)
+    (h : ts.find? (fun x => x.name == r.name && x.occ == r.occ) = some r) :
+    (setTask ts r1).find? (fun x => x.name == r.name && x.occ == r.occ) = some r1 := by
+  unfold setTask
+  induction ts with
+  | nil => simp at h
+  | cons t rest ih =>
+    simp only [List.map_cons]
+    by_cases ht : (t.name == r.name && t.occ == r.occ) = true
+    · have ht1 : (t.name == r1.name && t.occ == r1.occ) = true := by rw [hn, ho]; exact ht
+      simp only [ht1, if_true, List.find?_cons]
+      have : (r1.name == r.name && r1.occ == r.occ) = true := by simp [hn, ho]
+      simp [this]
+    · have ht1 : (t.name == r1.name && t.occ == r1.occ) = false := by
+        rw [hn, ho]; simpa using ht
+      simp only [ht1, Bool.false_eq_true, if_false, List.find?_cons]
+      have hf : (t.name == r.name && t.occ == r.occ) = false := by simpa using ht
+      simp only [hf]
+      rw [List.find?_cons, hf] at h
+      exact ih h
+
 /-! ### the `crashed` flag -/
 
 theorem dispatchOne_crashed (sp : Spec) (w : World) (c : Cmd) : (dispatchOne sp w c).crashed = w.crashed := by
